@@ -216,9 +216,33 @@ impl<'a> StickerFind<'a> {
 }
 """ % dict(moveid=W('moveid', num('i.0')), move=W('move', rng('x')))
 
+def _builder_params():
+    """parameter names of every builder as the repository has them NOW (read at generation time): the generated contracts name the
+    parameters positionally (`$A1`, `$A2`, ... resolved by tools/splice.py at check time), so that a renamed parameter keeps its contract"""
+    sys.path.insert(0, os.path.join(V, 'tools'))
+    import rustlex, splice
+    f = os.path.join(os.environ.get('VERIF_REPO', '/repo'), 'mpd_client', 'src', 'commands', 'definitions.rs')
+    src = rustlex.Src(open(f).read()); items = rustlex.parse_items(src, 0, src.n())
+    out = {}
+    for it in items:
+        if it.kind == 'impl' and it.impl_trait is None:
+            for c in it.children:
+                if c.kind == 'fn': out['%s::%s' % (it.type_name, c.name)] = splice.fn_param_names(src, rustlex.fn_anatomy(src, c))
+    return out
+
+def _positional(text, names):
+    for k, n in enumerate(names):
+        if n == '_': continue
+        text = re.sub(r'(?<![\w.$])%s(?![\w(])' % re.escape(n), '$A%d' % (k + 1), text)
+    return text
+
 def builders_text():
     out = []
+    PN = _builder_params()
     for b in B:
+        names = PN.get(b['path'], [])
+        b = dict(b, ens=[_positional(e, names) for e in b['ens']], req=[_positional(e, names) for e in b['req']],
+                 extra=_positional(b['extra'], names) if 'tailbind' in b['extra'] else b['extra'])
         out.append('lift fn %s' % b['path'])
         out.append('  props %s\n  implicit C12\n  ret r' % b['props'])
         if b['mutself']: out.append('  mutself')
